@@ -123,6 +123,8 @@ pub struct C19Model {
     /// the name under which `ca` knows its parent (the parent calls itself
     /// "parent" in every configuration)
     pub parent_local: String,
+    /// the name under which the parent knows `ca` (the CA calls itself "ca")
+    pub child_at_parent: String,
 }
 
 impl Model for C19Model {
@@ -130,15 +132,16 @@ impl Model for C19Model {
         let c = || "ca".to_string();
         let p = || "parent".to_string();
         let g = || "gc".to_string();
+        let cn = || self.child_at_parent.clone();
         let mut ops = vec![
             Op::Roa { ca: c(), add: vec![c01::ROA_A.into()], del: vec![] },
             Op::Roa { ca: c(), add: vec![], del: vec![c01::ROA_A.into()] },
-            Op::Entitle { parent: p(), child: c(), res: r3("AS65000", "10.0.0.0/16", "") },
-            Op::Entitle { parent: p(), child: c(), res: c01::full_ca_res() },
-            Op::RemoveChild { parent: p(), child: c() },
+            Op::Entitle { parent: p(), child: cn(), res: r3("AS65000", "10.0.0.0/16", "") },
+            Op::Entitle { parent: p(), child: cn(), res: c01::full_ca_res() },
+            Op::RemoveChild { parent: p(), child: cn() },
             Op::RemovePublisher { publisher: c() },
             Op::AddPublisher { ca: c() },
-            Op::Suspend { parent: p(), child: c() },
+            Op::Suspend { parent: p(), child: cn() },
             Op::RemoveChild { parent: c(), child: g() },
             Op::RemoveParent { ca: g(), parent: c() },
             Op::DeleteCa { ca: g() },
@@ -215,6 +218,11 @@ impl Model for C19Model {
                     .parent(&parent_h(&p))
                     .map(|c| c.parent_server_info().parent_handle.to_string())
                     .unwrap_or_else(|_| p.clone());
+                // ... and the handle the parent knows this CA by
+                let me_there = xca
+                    .parent(&parent_h(&p))
+                    .map(|c| c.parent_server_info().child_handle.to_string())
+                    .unwrap_or_else(|_| x.clone());
                 // parent exchange
                 let attempt = w.sync_parent(x, &p);
                 hdr.counters[if attempt.is_ok() { 0 } else { 1 }].fetch_add(1, Ordering::Relaxed);
@@ -248,7 +256,7 @@ impl Model for C19Model {
                         // entitlements last returned by the parent
                         if real != "ta"
                             && let Ok(pca) = cm.get_ca(&ca(&real))
-                            && let Ok(list) = pca.list(&child_h(x), &w.config.issuance_timing)
+                            && let Ok(list) = pca.list(&child_h(&me_there), &w.config.issuance_timing)
                         {
                             let mut want = rpki::repository::resources::ResourceSet::default();
                             for c in list.classes() {
@@ -266,7 +274,7 @@ impl Model for C19Model {
                         if real != "ta"
                             && let Ok(pst) = cm.get_ca_status(&ca(&real))
                         {
-                            match pst.children().get(&child_h(x)) {
+                            match pst.children().get(&child_h(&me_there)) {
                                 None => v.push((
                                     "no-status".into(),
                                     format!("{p} shows no status for child {x} although its last request succeeded"),
@@ -395,9 +403,10 @@ pub fn run(tier: &Tier, args: &[String]) -> i32 {
         Config {
             name: "w3".into(),
             build: Box::new(|| c01::build_w3(c01::world_cfg(100, 90))),
-            model: C19Model { parent_local: "parent".into() },
+            model: C19Model { parent_local: "parent".into(), child_at_parent: "ca".into() },
         },
-        // the CA knows its parent under a name of its own choosing
+        // the CA knows its parent under a name of its own choosing, and the
+        // parent knows the CA under another name than the CA's own handle
         Config {
             name: "w3-renamed-parent".into(),
             build: Box::new(|| {
@@ -405,7 +414,7 @@ pub fn run(tier: &Tier, args: &[String]) -> i32 {
                 (|| -> crate::world::KResult<World> {
                     let w = World::build_ta_parent(c01::world_cfg(100, 90))?;
                     w.add_ca("ca")?;
-                    w.add_child_link_as("parent", "ca", "upstream", crate::world::res(&f.0, &f.1, &f.2))?;
+                    w.add_child_link_named("parent", "ca", "customer7", "upstream", crate::world::res(&f.0, &f.1, &f.2))?;
                     w.pump().map_err(krill::commons::error::Error::custom)?;
                     w.add_ca("gc")?;
                     w.add_child_link("ca", "gc", crate::world::res("AS65001", "10.0.0.0/24", ""))?;
@@ -414,7 +423,7 @@ pub fn run(tier: &Tier, args: &[String]) -> i32 {
                 })()
                 .map_err(|e| e.to_string())
             }),
-            model: C19Model { parent_local: "upstream".into() },
+            model: C19Model { parent_local: "upstream".into(), child_at_parent: "customer7".into() },
         },
     ];
     e1run::run(
